@@ -251,6 +251,15 @@ def mismatch_cases(rng):
         elif kind == "mass-empty": mass = []
         elif kind == "mass-3N-entries": mass = list(numpy.repeat(mass, 3)) if na > 1 else mass + [1.0]
         out.append(("disp2eig", kind, {"a": to_json_c(a), "mass": [float(x) for x in mass]}))
+    # shapes whose ELEMENT COUNT is a multiple of 3N although the row length is not 3N (a reshape would swallow them)
+    for k in range(6):
+        na = int(rng.integers(2, 6)); m = 3 * na
+        mass = list(rng.uniform(1, 50, na))
+        kind = ["3N-rows-of-3N+1", "3N-rows-of-3N-3", "one-column-per-atom-3NxN", "two-vectors-per-row-Mx6N", "3N-rows-of-3N+3", "2x(3N/2)-or-3x2N"][k]
+        shape = {"3N-rows-of-3N+1": (m, m + 1), "3N-rows-of-3N-3": (m, m - 3), "one-column-per-atom-3NxN": (m, na),
+                 "two-vectors-per-row-Mx6N": (int(rng.integers(1, 4)), 2 * m), "3N-rows-of-3N+3": (m, m + 3), "2x(3N/2)-or-3x2N": (3, 2 * na)}[kind]
+        a = rng.normal(size=shape) + 1j * rng.normal(size=shape)
+        out.append(("disp2eig", kind, {"a": to_json_c(a), "mass": [float(x) for x in mass]}))
     return out
 
 
@@ -389,6 +398,9 @@ def gen_eig_file(rng, nq, nat, wide=False):
     lines, expect = [], []
     for iq in range(nq):
         q = [dec(rng, -1.0, 1.0, 4) for _ in range(3)]
+        if (iq == 0 and rng.random() < 0.6) or rng.random() < 0.1:
+            # the Γ point as matdyn prints it (0.0000, sometimes -0.0000); its eigenvectors are printed complex like all others
+            q = [("-0.0000" if rng.random() < 0.2 else "0.0000") for _ in range(3)]
         lines += ["     diagonalizing the dynamical matrix ...", "", " q = " + "".join("%12s" % t for t in q), STARS]
         modes = []
         for im in range(np_):
